@@ -10,6 +10,7 @@ Driver for C19. Case lines (family letter first):
   F <code> <preCT> <format> <nargs> { S <str> | O }* <sprintf> => R <status> <ctype> <body> | E | P
   J <variant> <code> <hasExtra> <extra> <encOK> <enc> => R <status> <ctype> <body> <same> | E <bodylen> <ctype> | P
   H <n> { <op> <args…> <code> <ship…> <keys…> }* => <n> { V <nkeys> { <values…> }* | P }*
+  M <npre> {call}* <code> <accept> <vtext> <encOK> <enc> <npf> …pf => R <status> <ctype> <body> <same> | E <bodylen> <ctype> | P
   P <nw> { <calls…> <fmt> <val> <sprintf> }* <npf> …pf => <nw> { <panics> <ncalls> { <answers…> <fresh> }* <bodies…> }*
   R <n> { W <failAt> <mode> (F … | J … | T <kind> <code> <ct> <text>) }* => <n> { R <status> <ctype> <body> <same> | E <delivered> | P }*
 -/
@@ -281,6 +282,35 @@ def stepP (id : String) (inp obs : List String) : String :=
       (" ".intercalate ("P" :: toString ws.length :: ws.map (fun w => encNeg (w.calls.map (Accept.answer pf)))))
   | _, _ => s!"{id} bad-case"
 
+/-! ### M: Format (negotiated rendering), optionally after other negotiation calls on the same context -/
+
+def stepM (id : String) (inp obs : List String) : String :=
+  match runP (do
+      let pre ← list pCall
+      let code ← nat; let hdr ← str; let vtext ← str; let ok ← bool; let enc ← str; let tbl ← list pPF
+      pure (pre, code, hdr, vtext, ok, enc, tbl)) inp, runP pJObs obs with
+  | some (pre, code, hdr, vtext, ok, enc, tbl), some o =>
+    let pf := mkPF tbl
+    let call : Accept.Call := { kind := .accept, header := hdr, offers := Render.formatOffers }
+    -- the answer inside the history (the model of the four calls on one context), then the rendering
+    let ans := (Accept.run pf Accept.Ctx.fresh (pre ++ [call])).getLastD []
+    let m := Render.formatResponse ans code vtext ok enc
+    let ob : Option (Option (Nat × Bytes × Bytes × Bool)) := match o with
+      | .ok st ct b same => some (some (st, ct, b, same))
+      | .err n ct => if n == 0 && ct == [] then some none else none
+      | .panic => none
+    let mi := match ob, m with
+      | some (some (st, ct, b, _)), some (mc, mct, mb) => st == mc && ct == mct && b == mb
+      | some none, none => true
+      | _, _ => false
+    let s := match ob with
+      | some x => RenderSpec.formatOK (AcceptSpec.negotiationOK true hdr Render.formatOffers) code vtext ok enc x
+      | none => false
+    verdict id mi s "-" (match m with
+      | some (c, ct, b) => s!"R {c} {encStr ct} {encStr b}"
+      | none => "E 0 h:")
+  | _, _ => s!"{id} bad-case"
+
 /-! ### H -/
 
 structure HOp where
@@ -346,6 +376,7 @@ def step (line : String) : String :=
     | "H" :: rest => stepH id rest obs
     | "R" :: rest => stepR id rest obs
     | "P" :: rest => stepP id rest obs
+    | "M" :: rest => stepM id rest obs
     | _ => s!"{id} bad-case"
 
 end Rivaas.DriverC19
